@@ -101,19 +101,22 @@ Definition law_commit_op (b a : dump) (binds : list (positive * option positive)
   | _, _ => false
   end.
 
-Definition cop_req (d : dump) (k : positive) (want_kind : Z) (ops : list cop) : res :=
-  sum_req (omap (fun o => if (c_kind o =? want_kind) && c_refused o then
-                            match d_heap d !! c_tid o with
-                            | Some t => if bool_decide (t_job t = k) then Some t else None
-                            | None => None end
-                          else None) ops).
+(* requests of the operations of job k that Commit rolled back: refused ones, and accepted binds
+   whose job the session no longer knows (Statement.allocate fails after AddBindTask) *)
+Definition cop_req (b a : dump) (k : positive) (want_kind : Z) (ops : list cop) : res :=
+  sum_req (omap (fun o => match d_heap b !! c_tid o with
+                          | Some t =>
+                            if (c_kind o =? want_kind) && bool_decide (t_job t = k) &&
+                               (c_refused o || ((want_kind =? 2) && negb (job_known a t)))
+                            then Some t else None
+                          | None => None end) ops).
 
 Definition law_commit (ops : list cop) (b a : dump) (binds : list (positive * option positive)) (evs : list positive) : bool :=
   forallb (law_commit_op b a binds evs) ops &&
   Nat.eqb (length binds) (length (List.filter (fun o => (c_kind o =? 2) && negb (c_refused o)) ops)) &&
   Nat.eqb (length evs) (length (List.filter (fun o => (c_kind o =? 0) && negb (c_refused o)) ops)) &&
-  forallb (fun k => res_eqvb (add (default empty_res (d_share a !! k)) (cop_req b k 2 ops))
-                             (add (default empty_res (d_share b !! k)) (cop_req b k 0 ops)))
+  forallb (fun k => res_eqvb (add (default empty_res (d_share a !! k)) (cop_req b a k 2 ops))
+                             (add (default empty_res (d_share b !! k)) (cop_req b a k 0 ops)))
           (elements (dom (d_share a) ∪ dom (d_share b))).
 
 Definition entry (sel : Z) (toks : list Z) : list Z :=
